@@ -60,7 +60,7 @@ Definition enc_fheader_of (wlog : N) (cs ck nodid ml : bool) (pledged dictID : N
   enc_fheader {| fp_windowLog := wlog; fp_contentSize := cs; fp_checksum := ck; fp_noDictID := nodid; fp_magicless := ml |} pledged dictID.
 
 (* ---------- compressed blocks: re-encode the sequences bitstream (and raw / RLE literals sections) ---------- *)
-From ZV.Codec Require Import EncodeSeq EncodeHuf.
+From ZV.Codec Require Import EncodeSeq EncodeHuf EncodeFse.
 
 (* the values of the sequences of a block, read like seq_loop reads them but without executing them *)
 Fixpoint seq_values (n : nat) (tll tof tml : fse_table) (stll stof stml : N) (s : list bool) (acc : list eseq) : res (list eseq) :=
@@ -85,6 +85,19 @@ Fixpoint seq_values (n : nat) (tll tof tml : fse_table) (stll stof stml : N) (s 
       seq_values n' tll tof tml (fst u1) (fst u3) (fst u2) (snd u3) (q :: acc)
     end
   end.
+
+(* an FSE_Compressed_Mode table description re-written by the model from the counts R read: None = same bytes *)
+Definition ncount_diff (mode maxSV maxLog : N) (src : bytes) : option N :=
+  if mode =? 2 then
+    match read_ncount maxSV maxLog src with
+    | Ok (log, counts, used) =>
+      match write_ncount log counts with
+      | Some d => first_diff d (takeN used src) 0
+      | None => Some 0
+      end
+    | Err _ _ => Some 0
+    end
+  else None.
 
 (* Ok None: the model encoder reproduces the block's literals header (raw / RLE modes), Number_of_Sequences field and
    sequences bitstream byte for byte; Ok (Some i): first differing byte (offset inside the block payload) *)
@@ -126,6 +139,13 @@ Definition reencode_cblock (blockMax : N) (e : entropy) (payload : bytes) : res 
           do to <- seq_table (N.land (N.shiftr modes 4) 3) MaxOff OffFSELog 5 spec_OF_default (e_of e) (snd tl);
           do tm <- seq_table (N.land (N.shiftr modes 2) 3) MaxML MLFSELog 6 spec_ML_default (e_ml e) (snd to);
           let stream := snd tm in
+          match ncount_diff (N.shiftr modes 6) MaxLL LLFSELog rest2,
+                ncount_diff (N.land (N.shiftr modes 4) 3) MaxOff OffFSELog (snd tl),
+                ncount_diff (N.land (N.shiftr modes 2) 3) MaxML MLFSELog (snd to) with
+          | Some i, _, _ => Ok (Some (lenN payload - lenN rest2 + i))
+          | None, Some i, _ => Ok (Some (lenN payload - lenN (snd tl) + i))
+          | None, None, Some i => Ok (Some (lenN payload - lenN (snd to) + i))
+          | None, None, None =>
           do s0 <- of_opt (rbits_open stream) Eformat 964;
           do i1 <- of_opt (fse_init (fst tl) s0) Eformat 965;
           do i2 <- of_opt (fse_init (fst to) (snd i1)) Eformat 966;
@@ -138,6 +158,7 @@ Definition reencode_cblock (blockMax : N) (e : entropy) (payload : bytes) : res 
             | None => Ok None
             | Some i => Ok (Some (lenN payload - lenN stream + i))
             end
+          end
           end
         end
     end
